@@ -3,7 +3,8 @@ From VM Require Import Prelude.MachInt Prelude.Outcome Impl.Bitmap Impl.Dirty Sp
 
 (* a page reported dirty after an operation was dirty before it, or contains a byte of a range the
    operation marked; and (next theorem) the marked range IS the written range for every operation
-   except the documented failed-descriptor-read exception *)
+   except the documented failed-descriptor-read exception (read(2) returned an error - at once, or
+   part-way after storing a prefix: the whole target is marked, io.rs:191-195) *)
 Theorem C16_precise : forall hm rs s rs' out, wf rs -> is_reset s = false -> run_step hm rs s = (rs', out) ->
   forall j p, D rs' j p = true ->
   D rs j p = true \/
@@ -14,6 +15,15 @@ Proof. exact C16_precise_lemma. Qed.
 Theorem C16_marked_is_written : forall hm rs s rs' out, wf rs -> is_reset s = false -> is_fd_error s = false ->
   run_step hm rs s = (rs', out) -> forall e, In e (o_effs out) -> e_mlen e = e_wn e.
 Proof. exact mlen_is_wn_lemma. Qed.
+
+(* the documented exception is bounded: also for a failed descriptor read (failing at once or part-way)
+   the marked range starts at the first byte of the target, covers what was written and stays inside
+   the region - it is the target of the call, never more *)
+Theorem C16_marked_covers_written : forall hm rs s rs' out, wf rs -> is_reset s = false -> run_step hm rs s = (rs', out) ->
+  forall e, In e (o_effs out) ->
+  e_moff e = e_woff e /\ e_wn e <= e_mlen e /\
+  exists r, nth_error rs (e_r e) = Some r /\ e_woff e + e_mlen e <= r_size r.
+Proof. exact marked_covers_written_lemma. Qed.
 
 (* the abstract bitmap operation itself: marking a range affects exactly the existing pages of the
    inclusive page interval (this is the interface C09 proves of AtomicBitmap) *)
@@ -44,6 +54,7 @@ Proof. vm_compute. repeat split. Qed.
 
 Print Assumptions C16_precise.
 Print Assumptions C16_marked_is_written.
+Print Assumptions C16_marked_covers_written.
 Print Assumptions C16_mark_spec.
 Print Assumptions C16_page_in_overlap.
 Print Assumptions C16_model_ok.
